@@ -510,6 +510,43 @@ func registerIntrinsics(in *Interp) {
 		in.goModes[name] = mode
 		return nil
 	}
+	I["#goinvoke"] = func(fr *Frame, g *Term, args []Value, site ssa.Instruction, fn *ssa.Function) []Value {
+		recv := args[0].(*IfaceVal)
+		m := args[1].(*methodBox).M
+		return in.invoke(fr, g, recv, m, args[2:], site)
+	}
+	I["#vInTask"] = func(fr *Frame, g *Term, args []Value, site ssa.Instruction, fn *ssa.Function) []Value {
+		return []Value{mkBool(in.inTask)}
+	}
+	// vRunTask(j): run the j-th forked call (fork order) now, if it is still pending
+	I["#vRunTask"] = func(fr *Frame, g *Term, args []Value, site ssa.Instruction, fn *ssa.Function) []Value {
+		j, ok := args[0].(*Term)
+		if !ok || !j.IsConst() {
+			in.unsupported(g, "vRunTask needs a concrete index")
+			return []Value{tFalse}
+		}
+		for i := range in.tasks {
+			t := &in.tasks[i]
+			if t.seq == int(j.val) && !t.done {
+				t.done = true
+				saved := in.inTask
+				in.inTask = true
+				in.callFuncVal(fr, mkAnd(g, t.g), t.fv, t.args, nil, site)
+				in.inTask = saved
+				return []Value{tTrue}
+			}
+		}
+		return []Value{tFalse}
+	}
+	I["#vPendingTasks"] = func(fr *Frame, g *Term, args []Value, site ssa.Instruction, fn *ssa.Function) []Value {
+		n := 0
+		for _, t := range in.tasks {
+			if !t.done {
+				n++
+			}
+		}
+		return []Value{mkConst(64, uint64(n))}
+	}
 	I["#vRunTasks"] = func(fr *Frame, g *Term, args []Value, site ssa.Instruction, fn *ssa.Function) []Value {
 		ts := in.tasks
 		in.tasks = nil
